@@ -34,7 +34,7 @@
     the [_refuted] ones describe the unrepaired form (and stay as regression theorems
     afterwards), [C07_assigned_parameter_emitted] / [C07_untouched_variable_zero] the repaired. *)
 From Coq Require Import List NArith QArith.
-From Codegen Require Import Codegen CodegenSpec CallArity ExpectedFacts GenCodegenFacts CgInst CodegenProofs CallArityProofs CgInstProofs.
+From Codegen Require Import Codegen CodegenSpec CallArity NameScope RustLit ExpectedFacts GenCodegenFacts CgInst CodegenProofs CallArityProofs NameScopeProofs RustLitProofs CgInstProofs.
 Import ListNotations.
 
 Theorem C07_facts_pinned :
@@ -457,3 +457,133 @@ Example C07_nonvacuous_repaired :
         /\ outcome_eqb (execQ (C07_facts IaFrozen UtZero) L p 0 [3; 5] []) (ROk [-12; 0]) = true).
 Proof. exact nonvacuous_repaired. Qed.
 Print Assumptions C07_nonvacuous_repaired.
+
+(** ======================================================================================
+    NAME RESOLUTION inside a translated function (closing pass 3; model NameScope.v): which binding
+    a name of the body reads.  fn_to_sympy keeps a symbol table (parameters, then every local
+    assignment's translation) and inlines the FLOAT constants of the defining module; _handle_name
+    consults the symbol table first -- Python's own scoping: a parameter / local called like a module
+    constant shadows it.  [gen_name_fact] is REGENERATED from _handle_name (NkLocalFirst = the tree,
+    NkGlobalFirst = the constants first: seeded change C07-8).
+    ====================================================================================== *)
+Theorem C07_name_fact_pinned : gen_name_fact = NkLocalFirst.
+Proof. vm_compute. reflexivity. Qed.
+Print Assumptions C07_name_fact_pinned.
+
+(** for EVERY value type, module (its float constants [G]), function (parameters, local assignments
+    in order, return expression), argument expressions and environment: whenever CPython computes a
+    value for the call -- locals first, a not-yet-assigned local being an UnboundLocalError, other
+    names module constants -- the expression of the model component has exactly that value *)
+Theorem C07_name_resolution_sound :
+  forall (V : Type) (vadd vsub vmul : V -> V -> V) (G : globals V) (f : sfn V) (acts : list (texp V)) (r : texp V)
+         (env : name -> option V) (vs : list V) (v : V),
+    acts <> [] \/ C07_expected_bind = BkStrict ->
+    translate_for V gen_name_fact gen_bind_fact G f acts = Some r ->
+    map_opt (teval V vadd vsub vmul env) acts = Some vs ->
+    py_run V vadd vsub vmul G f vs = Some v ->
+    teval V vadd vsub vmul env r = Some v.
+Proof. exact (scope_sound_pinned C07_expected_bind gen_bind_fact gen_name_fact expected_bind_not_lax expected_bind_not_unknown C07_bind_fact_pinned C07_name_fact_pinned). Qed.
+Print Assumptions C07_name_resolution_sound.
+
+(** neither a local nor a module constant survives as a symbol: the expression fn_to_sympy holds
+    before the binding statement mentions the function's own parameters only (either lookup order) *)
+Theorem C07_translation_mentions_parameters_only :
+  forall (V : Type) (nk : name_kind) (G : globals V) (f : sfn V) (e : texp V) (s : name),
+    translate_fn V nk G f = Some e -> In s (syms V e) -> In s (sf_params V f).
+Proof. exact scope_closed. Qed.
+Print Assumptions C07_translation_mentions_parameters_only.
+
+(** the constants-first order gives the SAME translation for every function none of whose
+    parameters / locals is called like a float constant of its module: exactly the functions without
+    a name clash "translate as before" *)
+Theorem C07_constants_first_same_without_clash :
+  forall (V : Type) (G : globals V) (f : sfn V),
+    no_clash V G f = true ->
+    translate_fn V NkGlobalFirst G f = translate_fn V NkLocalFirst G f.
+Proof. exact global_first_same. Qed.
+Print Assumptions C07_constants_first_same_without_clash.
+
+(** ... and is WRONG with a clash (regression witness for seeded change C07-8, on the table's own
+    functions and constants c_half = 1/2, c_gain = 4): m_param(a, c_half) and m_local(a, b) are still
+    translated -- generation does not raise -- to expressions that give 11/2 and -5/2 at (3, 5) where
+    CPython gives 19 and 20; the tree's order gives CPython's values for all three clashing functions *)
+Theorem C07_constants_first_refuted :
+  (exists e r, scope_entry 39%N = Some e
+     /\ translate_forQ NkGlobalFirst BkStrict fn_globals e (map TSym (margs 2)) = Some r
+     /\ optQ_eqb (tevalQ env35 r) (Some (11 # 2)) = true
+     /\ optQ_eqb (py_runQ fn_globals e [3; 5]) (Some 19) = true
+     /\ no_clash Q fn_globals e = false)
+  /\ (exists e r, scope_entry 40%N = Some e
+     /\ translate_forQ NkGlobalFirst BkStrict fn_globals e (map TSym (margs 2)) = Some r
+     /\ optQ_eqb (tevalQ env35 r) (Some (-5 # 2)) = true
+     /\ optQ_eqb (py_runQ fn_globals e [3; 5]) (Some 20) = true
+     /\ no_clash Q fn_globals e = false)
+  /\ (forall f, f = 39%N \/ f = 40%N \/ f = 41%N -> exists e r,
+         scope_entry f = Some e
+         /\ translate_forQ NkLocalFirst BkStrict fn_globals e (map TSym (margs 2)) = Some r
+         /\ optQ_eqb (tevalQ env35 r) (py_runQ fn_globals e [3; 5]) = true
+         /\ optQ_eqb (fsemQ f [3; 5]) (py_runQ fn_globals e [3; 5]) = true).
+Proof. exact constants_first_refuted. Qed.
+Print Assumptions C07_constants_first_refuted.
+
+(** non-vacuity of [C07_name_resolution_sound]: m_rebind(a, c_gain) -- a parameter called like a module
+    constant, rebound from the other constant -- meets every hypothesis at (3, 5): translated, closed
+    over the model's two arguments, CPython's value 31 *)
+Example C07_scope_nonvacuous :
+  exists e r, scope_entry 41%N = Some e
+    /\ translate_forQ NkLocalFirst BkStrict fn_globals e (map TSym (margs 2)) = Some r
+    /\ sort_names (syms Q r) = [9001%N; 9002%N]
+    /\ map_opt (tevalQ env35) (map TSym (margs 2)) = Some [3; 5]
+    /\ optQ_eqb (py_runQ fn_globals e [3; 5]) (Some 31) = true
+    /\ optQ_eqb (tevalQ env35 r) (Some 31) = true
+    /\ no_clash Q fn_globals e = false.
+Proof. exact scope_nonvacuous. Qed.
+Print Assumptions C07_scope_nonvacuous.
+
+(** ======================================================================================
+    THE EXPLICIT ZERO of a variable no reaction acts on (closing pass 3; model RustLit.v): the one
+    number _generate_model_code writes itself.  [gen_zero_lit] is REGENERATED: ZlFloat = the literal
+    "0.0" (the tree), ZlPrinted = the empty sum through the language printer, `0` (seeded change
+    C07-9), ZlAbsent = no such block (the tree before d8f9047).
+    ====================================================================================== *)
+Theorem C07_zero_literal_pinned :
+  gen_zero_lit = match C07_expected_untouched with UtZero => ZlFloat | UtDropped => ZlAbsent | UtUnknown => ZlUnknown end.
+Proof. vm_compute. reflexivity. Qed.
+Print Assumptions C07_zero_literal_pinned.
+
+(** every explicit-zero line of every generated text is well typed, in every language, for every model *)
+Theorem C07_explicit_zero_well_typed :
+  C07_expected_untouched = UtZero ->
+  forall (V : Type) (L : lang) (m : cmodel V), zero_lines_ok V gen_zero_lit L gen_codegen_facts m = true.
+Proof. exact (explicit_zero_pinned gen_zero_lit C07_expected_untouched gen_codegen_facts C07_zero_literal_pinned). Qed.
+Print Assumptions C07_explicit_zero_well_typed.
+
+(** regression theorem for seeded change C07-9: with the zero sent through the printer, EVERY model
+    that has an equation and a variable no reaction acts on gets a Rust text with an ill-typed line
+    (`let d<x>dt: f64 = 0;`), while its Python and TypeScript lines stay well typed -- executing those
+    two cannot show it *)
+Theorem C07_printed_zero_refuted :
+  forall (V : Type) (F : facts) (m : cmodel V) (x : name),
+    f_untouched F = UtZero -> HasEquation V m -> In x (m_var m) -> stoich_terms V m x = [] ->
+    zero_lines_ok V ZlPrinted Rs F m = false
+    /\ zero_lines_ok V ZlPrinted Py F m = true /\ zero_lines_ok V ZlPrinted Ts F m = true.
+Proof. exact printed_zero_rust_refuted. Qed.
+Print Assumptions C07_printed_zero_refuted.
+
+(** ... and models in which every variable is acted on by a reaction get the same text as before *)
+Theorem C07_printed_zero_invisible_when_every_variable_has_a_reaction :
+  forall (V : Type) (L : lang) (F : facts) (m : cmodel V),
+    (forall x, In x (m_var m) -> stoich_terms V m x <> []) ->
+    zero_lines_ok V ZlPrinted L F m = true.
+Proof. exact printed_zero_invisible. Qed.
+Print Assumptions C07_printed_zero_invisible_when_every_variable_has_a_reaction.
+
+(** non-vacuity: the witness model of the repaired untouched-variable defect has such a line *)
+Example C07_zero_line_nonvacuous :
+  zero_lines_ok Q ZlPrinted Rs (C07_facts IaFrozen UtZero) w_both = false
+  /\ zero_lines_ok Q ZlPrinted Py (C07_facts IaFrozen UtZero) w_both = true
+  /\ zero_lines_ok Q ZlPrinted Ts (C07_facts IaFrozen UtZero) w_both = true
+  /\ zero_lines_ok Q ZlFloat Rs (C07_facts IaFrozen UtZero) w_both = true
+  /\ zero_vars Q (C07_facts IaFrozen UtZero) w_both (build_diff Q (entries Q w_both)) <> [].
+Proof. exact printed_zero_witness. Qed.
+Print Assumptions C07_zero_line_nonvacuous.
